@@ -35,7 +35,7 @@ def scan_assumptions(gen_path):
     """mechanical scan for unchecked assumptions in a generated file"""
     txt = open(gen_path).read()
     found = []
-    for mm in re.finditer(r'(assume_specification[^\[]*\[(.+?)\]\s*\(|#\[verifier::external_body\]\s*(?:pub\s+)?(?:fn|struct)\s+(\w+)|pub\s+axiom\s+fn\s+(\w+)|\buninterp\s+spec\s+fn\s+(\w+)|\bassume\s*\(|\badmit\s*\(|#\[verifier::external\])', txt):
+    for mm in re.finditer(r'(assume_specification[^\[]*\[(.+?)\]\s*\(|#\[verifier::external_body\]\s*(?:pub\s+)?(?:fn|struct)\s+(\w+)|pub\s+axiom\s+fn\s+(\w+)|\buninterp\s+spec\s+fn\s+(\w+)|\bassume\s*\(|\badmit\s*\(|#\[verifier::external\]\s*([^{;]*))', txt):
         if mm.group(2):
             found.append('assume_specification ' + re.sub(r'\s+', ' ', mm.group(2)).strip())
         elif mm.group(3):
@@ -44,6 +44,8 @@ def scan_assumptions(gen_path):
             found.append('axiom ' + mm.group(4))
         elif mm.group(5):
             found.append('uninterpreted ' + mm.group(5))
+        elif mm.group(6) is not None:
+            found.append('external ' + re.sub(r'\s+', ' ', mm.group(6)).strip())
         else:
             found.append(mm.group(0).strip())
     return sorted(set(found))
